@@ -374,7 +374,7 @@ def C19(infos: List[EnumInfo], ctx: dict):
                         # strum items must be spelled through the configured path
                         if crate in ("strum", "strum_renamed") and pth.get("written") and "written" in pth and pth.get("dk") not in ("Mod",):
                             w = pth["written"] if pth["written"].startswith("::") else (("::" if pth.get("global") else "") + pth["written"])
-                            conf = es.strum_path().replace(" ", "")
+                            conf = "::".join(seg[2:] if seg.startswith("r#") else seg for seg in es.strum_path().replace(" ", "").split("::"))   # the driver prints identifiers, not their raw spelling
                             if g.derive != "EnumDiscriminants" and g.chain and len(g.chain) > 1:
                                 continue  # nested derive: the crate path is whatever was passed through
                             if not (w.startswith(conf + "::") or w == conf or pth["written"].split("::")[0] in ("Self",) or pth.get("dk") in ("AssocTy", "AssocFn", "AssocConst")):
